@@ -1,4 +1,5 @@
 import HpxVerif.Lemmas.PolyLemmas
+import HpxVerif.Props.C16
 
 /-!
 # C12 — polygon coverage keeps the vertex cells, is tight, and flags honestly
@@ -229,5 +230,14 @@ theorem coverage_vertex_kept_allsky (cfg : Cfg) (depth : Nat) (vertices : List (
   intro hno v hv hlt
   obtain ⟨rfl, rfl⟩ := h4 hno
   exact vertex_cell_kept_allsky cfg depth poly hs (depth + 2) cells h5 v hv hlt
+
+/-- the table of limits that selects the starting depth is regular (each depth halves the limit, relative excess
+    `≈ 0.05·2^-k`): the obligation of C16 about the constants of the source, required here because the start cells of this
+    coverage are chosen with that table -/
+theorem start_depth_table_regular :
+    (∀ j, j < 24 →
+      C16.dyHalvingLo (j + 2) 1 25 (Gen.smallerEdge2OpEdgeDistDyadic.getD (j + 2) (0, 0)) (Gen.smallerEdge2OpEdgeDistDyadic.getD (j + 3) (0, 0)) = true ∧
+      C16.dyHalvingHi (j + 2) 1 10 (Gen.smallerEdge2OpEdgeDistDyadic.getD (j + 2) (0, 0)) (Gen.smallerEdge2OpEdgeDistDyadic.getD (j + 3) (0, 0)) = true) :=
+  C16.table_halving.1
 
 end Hpx.C12
